@@ -81,22 +81,22 @@ Section Fragment.
      [chain hc recs frs hc']: starting from half connection hc, fragment j (application data, at most
      2^14 bytes) was protected by halfConn.encrypt under the state left by fragment j-1; hc' is the state
      after the last one *)
-  Inductive chain : halfConn -> list (list N) -> list (list N) -> halfConn -> Prop :=
-  | chain_nil hc : chain hc [] [] hc
+  Inductive chain (typ : N) : halfConn -> list (list N) -> list (list N) -> halfConn -> Prop :=
+  | chain_nil hc : chain typ hc [] [] hc
   | chain_cons hc hc1 hc2 eiv fr rec_ recs frs :
       length eiv = explicit_len P (hc_cipher hc) -> bytes_ok eiv -> length fr <= maxPlaintext ->
-      encrypt P hc ([recordTypeApplicationData; 1; 1]%N ++ len_bytes (length fr) ++ eiv ++ fr) (length eiv)
+      encrypt P hc ([typ; 1; 1]%N ++ len_bytes (length fr) ++ eiv ++ fr) (length eiv)
         = Ok (hc1, rec_) ->
-      chain hc1 recs frs hc2 -> chain hc (rec_ :: recs) (fr :: frs) hc2.
+      chain typ hc1 recs frs hc2 -> chain typ hc (rec_ :: recs) (fr :: frs) hc2.
 
-  Lemma chain_app hc recs frs hc1 recs' frs' hc2 :
-    chain hc recs frs hc1 -> chain hc1 recs' frs' hc2 -> chain hc (recs ++ recs') (frs ++ frs') hc2.
+  Lemma chain_app typ hc recs frs hc1 recs' frs' hc2 :
+    chain typ hc recs frs hc1 -> chain typ hc1 recs' frs' hc2 -> chain typ hc (recs ++ recs') (frs ++ frs') hc2.
   Proof. induction 1; intros H'; cbn [app]; [exact H'|]. econstructor; eauto. Qed.
 
-  Lemma chain_lengths hc recs frs hc' : chain hc recs frs hc' -> length recs = length frs.
+  Lemma chain_lengths typ hc recs frs hc' : chain typ hc recs frs hc' -> length recs = length frs.
   Proof. induction 1; cbn [length]; auto. Qed.
 
-  Lemma chain_fragments hc recs frs hc' : chain hc recs frs hc' -> Forall (fun f => length f <= maxPlaintext) frs.
+  Lemma chain_fragments typ hc recs frs hc' : chain typ hc recs frs hc' -> Forall (fun f => length f <= maxPlaintext) frs.
   Proof. induction 1; constructor; auto. Qed.
 
   (* sender side invariant *)
@@ -106,9 +106,9 @@ Section Fragment.
     kind (hc_cipher (o_hc c)) <> 0 /\ bytes_ok (o_rand c).
 
   (* ---------- one pass of the loop of writeRecordLocked -------------------------------------------------- *)
-  Lemma writeRecord_step_chain c data c1 rec_ m :
-    sender_ok c -> writeRecord_step P c recordTypeApplicationData data = Ok (Some (c1, rec_, m)) ->
-    sender_ok c1 /\ m <= length data /\ chain (o_hc c) [rec_] [firstn m data] (o_hc c1) /\
+  Lemma writeRecord_step_chain typ c data c1 rec_ m :
+    sender_ok c -> writeRecord_step P c typ data = Ok (Some (c1, rec_, m)) ->
+    sender_ok c1 /\ m <= length data /\ chain typ (o_hc c) [rec_] [firstn m data] (o_hc c1) /\
     o_closeNotifySent c1 = o_closeNotifySent c /\ hc_err (o_hc c1) = hc_err (o_hc c).
   Proof.
     intros [Hv [Hhv [[s0 [Hs0 Hseq]] [Hkind Hrand]]]] H. unfold writeRecord_step in H.
@@ -126,8 +126,8 @@ Section Fragment.
       - left. split; [apply Nat.ltb_lt; lia|]. split; [reflexivity|]. eauto. }
     destruct Hcases as [[He1 [He2 [k [iv Ec]]]]|[He1 [k [f Ec]]]]; rewrite He1 in H.
     - (* CBC: IV from the random stream *)
-      destruct (maxPayloadSizeForWrite P c recordTypeApplicationData e) as [maxPayload pkts] eqn:Emp.
-      pose proof (maxPayload_le c recordTypeApplicationData e) as Hmp. rewrite Emp in Hmp. cbn [fst] in Hmp.
+      destruct (maxPayloadSizeForWrite P c typ e) as [maxPayload pkts] eqn:Emp.
+      pose proof (maxPayload_le c typ e) as Hmp. rewrite Emp in Hmp. cbn [fst] in Hmp.
       set (m0 := if maxPayload <? length data then maxPayload else length data) in *.
       assert (Hm0 : m0 <= length data /\ m0 <= maxPlaintext).
       { unfold m0. destruct (Nat.ltb_spec maxPayload (length data)); lia. }
@@ -150,8 +150,8 @@ Section Fragment.
         cbn [app] in Ee |- *. exact Ee.
     - (* AEAD: the sequence number is the explicit nonce *)
       rewrite Ec in H.
-      destruct (maxPayloadSizeForWrite P c recordTypeApplicationData 8) as [maxPayload pkts] eqn:Emp.
-      pose proof (maxPayload_le c recordTypeApplicationData 8) as Hmp. rewrite Emp in Hmp. cbn [fst] in Hmp.
+      destruct (maxPayloadSizeForWrite P c typ 8) as [maxPayload pkts] eqn:Emp.
+      pose proof (maxPayload_le c typ 8) as Hmp. rewrite Emp in Hmp. cbn [fst] in Hmp.
       set (m0 := if maxPayload <? length data then maxPayload else length data) in *.
       assert (Hm0 : m0 <= length data /\ m0 <= maxPlaintext).
       { unfold m0. destruct (Nat.ltb_spec maxPayload (length data)); lia. }
@@ -175,10 +175,10 @@ Section Fragment.
   Qed.
 
   (* ---------- writeRecordLocked -------------------------------------------------------------------------------- *)
-  Lemma writeRecordLocked_chain fuel : forall c data c' recs n,
-    sender_ok c -> writeRecordLocked P fuel c recordTypeApplicationData data = Ok (c', recs, n, false) ->
+  Lemma writeRecordLocked_chain typ fuel : forall c data c' recs n,
+    sender_ok c -> writeRecordLocked P fuel c typ data = Ok (c', recs, n, false) ->
     sender_ok c' /\ n = length data /\
-    (exists frs, chain (o_hc c) recs frs (o_hc c') /\ concat frs = data) /\
+    (exists frs, chain typ (o_hc c) recs frs (o_hc c') /\ concat frs = data) /\
     o_closeNotifySent c' = o_closeNotifySent c /\ hc_err (o_hc c') = hc_err (o_hc c).
   Proof.
     induction fuel as [|fuel IH]; intros c data c' recs n Hs H.
@@ -189,12 +189,12 @@ Section Fragment.
       { injection H as <- <- <-. split; [exact Hs|]. split; [reflexivity|].
         split; [exists []; split; [constructor|reflexivity]|]. split; reflexivity. }
       set (data := x :: data0) in *.
-      destruct (writeRecord_step P c recordTypeApplicationData data) as [[[[c1 rec_] m]|]| | |] eqn:Es;
+      destruct (writeRecord_step P c typ data) as [[[[c1 rec_] m]|]| | |] eqn:Es;
         cbn [obind] in H; try discriminate.
-      destruct (writeRecordLocked P fuel c1 recordTypeApplicationData (skipn m data)) as [[[[c2 recs2] n2] err2]| | |] eqn:Er;
+      destruct (writeRecordLocked P fuel c1 typ (skipn m data)) as [[[[c2 recs2] n2] err2]| | |] eqn:Er;
         cbn [obind] in H; try discriminate.
       injection H as <- <- <- ->.
-      destruct (writeRecord_step_chain _ _ _ _ _ Hs Es) as [Hs1 [Hm [Hc1 [Hcn1 He1]]]].
+      destruct (writeRecord_step_chain _ _ _ _ _ _ Hs Es) as [Hs1 [Hm [Hc1 [Hcn1 He1]]]].
       destruct (IH _ _ _ _ _ Hs1 Er) as [Hs2 [Hn2 [[frs2 [Hc2 Hcat]] [Hcn2 He2]]]].
       split; [exact Hs2|]. split; [rewrite Hn2, skipn_length; lia|].
       split; [|split; congruence].
@@ -207,7 +207,7 @@ Section Fragment.
   (* ---------- Conn.Write, and a sequence of Writes ---------------------------------------------------------- *)
   Lemma conn_Write_chain fuel c b c' recs n :
     sender_ok c -> conn_Write P fuel c b = Ok (c', recs, n, false) ->
-    sender_ok c' /\ (exists frs, chain (o_hc c) recs frs (o_hc c') /\ concat frs = b).
+    sender_ok c' /\ (exists frs, chain recordTypeApplicationData (o_hc c) recs frs (o_hc c') /\ concat frs = b).
   Proof.
     intros Hs H. unfold conn_Write in H.
     destruct (hc_err (o_hc c)) eqn:He; [discriminate|].
@@ -219,20 +219,20 @@ Section Fragment.
       destruct (writeRecordLocked P fuel c1 recordTypeApplicationData (skipn 1 b)) as [[[[c2 recs2] n2] err2]| | |] eqn:E2;
         cbn [obind] in H; try discriminate.
       injection H as <- <- <- ->. cbn [out_set_err].
-      destruct (writeRecordLocked_chain _ _ _ _ _ _ Hs E1) as [Hs1 [_ [[frs1 [Hc1 Hcat1]] _]]].
-      destruct (writeRecordLocked_chain _ _ _ _ _ _ Hs1 E2) as [Hs2 [_ [[frs2 [Hc2 Hcat2]] _]]].
+      destruct (writeRecordLocked_chain _ _ _ _ _ _ _ Hs E1) as [Hs1 [_ [[frs1 [Hc1 Hcat1]] _]]].
+      destruct (writeRecordLocked_chain _ _ _ _ _ _ _ Hs1 E2) as [Hs2 [_ [[frs2 [Hc2 Hcat2]] _]]].
       split; [exact Hs2|]. exists (frs1 ++ frs2). split; [eapply chain_app; eassumption|].
       rewrite concat_app, Hcat1, Hcat2. apply firstn_skipn.
     - destruct (writeRecordLocked P fuel c recordTypeApplicationData b) as [[[[c2 recs2] n2] err2]| | |] eqn:E2;
         cbn [obind] in H; try discriminate.
       injection H as <- <- <- ->. cbn [out_set_err].
-      destruct (writeRecordLocked_chain _ _ _ _ _ _ Hs E2) as [Hs2 [_ [[frs2 [Hc2 Hcat2]] _]]].
+      destruct (writeRecordLocked_chain _ _ _ _ _ _ _ Hs E2) as [Hs2 [_ [[frs2 [Hc2 Hcat2]] _]]].
       split; [exact Hs2|]. exists frs2. auto.
   Qed.
 
   Lemma write_calls_chain fuel : forall writes c c' recs,
     sender_ok c -> write_calls P fuel c writes = Ok (c', recs, false) ->
-    sender_ok c' /\ exists frs, chain (o_hc c) recs frs (o_hc c') /\ concat frs = concat writes.
+    sender_ok c' /\ exists frs, chain recordTypeApplicationData (o_hc c) recs frs (o_hc c') /\ concat frs = concat writes.
   Proof.
     induction writes as [|b rest IH]; intros c c' recs Hs H; cbn [write_calls] in H.
     - injection H as <- <-. split; [exact Hs|]. exists []. split; [constructor|reflexivity].
@@ -288,18 +288,18 @@ Section Fragment.
   Proof. destruct cs; cbn [explicit_len]; lia. Qed.
 
   (* a receiver with the sender's keys and sequence number reads the whole chain, in order *)
-  Lemma chain_recv hcW recs frs hcW' : chain hcW recs frs hcW' ->
+  Lemma chain_recv hcW recs frs hcW' : chain recordTypeApplicationData hcW recs frs hcW' ->
     forall s hcR, same_keys hcW hcR -> hc_seq hcW = be64 s -> (s + N.of_nat (length recs) < 2 ^ 64)%N ->
       hc_version hcR = VersionGMSSL -> hc_err hcR = false -> Forall bytes_ok frs ->
       forall tail warn alerts trace rounds fuel,
-      exists hcR' warn' trace', hc_err hcR' = false /\ hc_version hcR' = VersionGMSSL /\
+      exists hcR' warn' trace', hc_err hcR' = false /\ hc_version hcR' = VersionGMSSL /\ same_keys hcW' hcR' /\
         recv_all P (length recs + rounds) (S fuel) (mkIn hcR VersionGMSSL (concat recs ++ tail) None warn alerts trace) =
           (do '(rest, c2) <- recv_all P rounds (S fuel) (mkIn hcR' VersionGMSSL tail None warn' alerts trace');
            Ok (concat frs ++ rest, c2)).
   Proof.
     induction 1 as [hc|hc hc1 hc2 eiv fr rec_ recs frs He Heb Hfr Henc Hch IH];
       intros s hcR Hk Hs Hb Hv Herr Hbytes tail warn alerts trace rounds fuel.
-    - exists hcR, warn, trace. split; [exact Herr|]. split; [exact Hv|].
+    - exists hcR, warn, trace. split; [exact Herr|]. split; [exact Hv|]. split; [exact Hk|].
       cbn [length concat app Nat.add]. symmetry. apply obind_ret.
     - inversion Hbytes as [|? ? Hbfr Hbrest]; subst.
       cbn [length] in Hb.
@@ -312,8 +312,8 @@ Section Fragment.
       { pose proof (explicit_len_le (hc_cipher hc)). unfold maxCiphertext, maxPlaintext in *. lia. }
       destruct (IH (s + 1)%N r' Hk' Hsw ltac:(lia) ltac:(congruence) ltac:(congruence) Hbrest tail
                    (if 0 <? length fr then 0 else warn) alerts ((hcR, rec_) :: trace) rounds fuel)
-        as [hcR' [warn' [trace' [He' [Hv' Heq]]]]].
-      exists hcR', warn', trace'. split; [exact He'|]. split; [exact Hv'|].
+        as [hcR' [warn' [trace' [He' [Hv' [Hk2 Heq]]]]]].
+      exists hcR', warn', trace'. split; [exact He'|]. split; [exact Hv'|]. split; [exact Hk2|].
       cbn [length Nat.add recv_all i_hc]. rewrite Herr.
       cbn [concat]. rewrite <- app_assoc.
       rewrite Hshape.
@@ -339,8 +339,8 @@ Section Fragment.
     intros Hs Hseq Hb Hw Hbytes Hk Hv He Hr.
     destruct (write_calls_chain _ _ _ _ _ Hs Hw) as [_ [frs [Hch Hcat]]].
     assert (Hfb : Forall bytes_ok frs) by (apply bytes_ok_concat_inv; rewrite Hcat; exact Hbytes).
-    destruct (chain_recv _ _ _ _ Hch s0 hcR Hk Hseq Hb Hv He Hfb [] 0 0 [] (rounds - length recs) fuel)
-      as [hcR' [warn' [trace' [He' [Hv' Heq]]]]].
+    destruct (chain_recv _ _ _ _ Hch s0 hcR Hk Hseq Hb Hv He Hfb [] 0 [] [] (rounds - length recs) fuel)
+      as [hcR' [warn' [trace' [He' [Hv' [_ Heq]]]]]].
     rewrite app_nil_r in Heq. replace (length recs + (rounds - length recs)) with rounds in Heq by lia.
     unfold receiver0. rewrite Heq.
     destruct (rounds - length recs) as [|r0] eqn:Er; [lia|].
